@@ -552,11 +552,6 @@ func c44Check(r *verifkit.Run, dir string, seq int, c *c44Case, defaults map[str
 				fp = kind + ":explicit-overridden-by-default:" + c44SourceNames[c.Source[i]]
 				what = fmt.Sprintf("%s was set explicitly (%s) but the resulting Config holds the %s default %q", name, c44SourceNames[c.Source[i]], net, gotVal)
 			}
-			if fs != nil {
-				fp += ":with-flagset"
-			} else {
-				fp += ":no-flagset"
-			}
 			r.Violation(fp, what, desc, witness)
 		case c.Source[i] != c44Unset:
 			// explicit but empty: the code documents "empty" as "not
